@@ -408,7 +408,7 @@ def execute_invivo(trace):
         faults[kind_] = 1
         probes["fault_" + kind_] = 1
         # the last clause of the property, in vivo: the failed write must be reported (exception, or text on stdout/stderr)
-        reported = out.get("status", "ok") != "ok" or "(injected" in out.get("stdio", "")
+        reported = out.get("status", "ok") != "ok" or "(injected" in out.get("stdio", "") or out.get("stdio_injected_msgs", 0) > 0
         if reported:
             probes["fault_reported"] = 1
         else:
